@@ -383,6 +383,14 @@ def r1(ctx):
             key = (nice(p), kind, sig)
             counts[key] = counts.get(key, 0) + 1
             ent = reviewed.get(key)
+            if ent is None and "::{closure#" in p:
+                # the same arithmetic moved into a closure of the reviewed function (a loop rewritten with iterator combinators): the
+                # invariant is about the function's data, not about the loop syntax. Only for entries that rest on no local guard.
+                pk = (nice(re.sub(r"(::\{closure#\d+\})+$", "", p)), kind, sig)
+                pe = reviewed.get(pk)
+                if pe is not None and not pe[0] and not pe[2]:
+                    ent = pe
+                    used.add(pk)
             if ent is not None:
                 requires, why, callers_rx = ent
                 if callers_rx:
